@@ -1,19 +1,27 @@
+pub mod c01;
 pub mod c02;
 pub mod c03;
+pub mod c04;
+pub mod c06;
 pub mod c11;
 pub mod c12;
 pub mod c13;
+pub mod c14;
 pub mod c15;
 
 use crate::report::{PropSpec, Report, RunCfg};
 
 pub fn lookup(id: &str) -> Option<(&'static PropSpec, fn(&RunCfg) -> Report)> {
     Some(match id {
+        "C01" => (&c01::SPEC, c01::run as fn(&RunCfg) -> Report),
         "C02" => (&c02::SPEC, c02::run as fn(&RunCfg) -> Report),
         "C03" => (&c03::SPEC, c03::run as fn(&RunCfg) -> Report),
+        "C04" => (&c04::SPEC, c04::run as fn(&RunCfg) -> Report),
+        "C06" => (&c06::SPEC, c06::run as fn(&RunCfg) -> Report),
         "C11" => (&c11::SPEC, c11::run as fn(&RunCfg) -> Report),
         "C12" => (&c12::SPEC, c12::run as fn(&RunCfg) -> Report),
         "C13" => (&c13::SPEC, c13::run as fn(&RunCfg) -> Report),
+        "C14" => (&c14::SPEC, c14::run as fn(&RunCfg) -> Report),
         "C15" => (&c15::SPEC, c15::run as fn(&RunCfg) -> Report),
         _ => return None,
     })
